@@ -11,6 +11,11 @@ alternating), searches, mutators through json_object_array_* AND through array_l
 json_object_get_array(arr) (lower-case ops), element values changed in place (json_object_set_int /
 set_int64 / set_string on an element): after every sort the array must be a permutation of what it
 held, ordered by the comparator on the CURRENT values, and a search must find exactly the present keys.
+The comparator contract is part of it: members are ints, strings and records ({"id": n, ...} / [n, ...]),
+searches use a key of member shape (B C) or a BARE INT key with a key-vs-member comparator that reads
+each argument by its role (K Q); the drivers check the roles on every comparator call (search: first
+argument the key, second a slot of the array; sort: both arguments elements of the array) and print
+ROLE otherwise; what a search returns must carry the key's id.
 Both APIs are driven: array_list_* (mode d) and json_object_array_* (mode j)."""
 PROP = "C07"
 DOMAIN = "al"
@@ -19,7 +24,8 @@ TECHNIQUE = "Coq refinement proof (AlProofs.v) + extracted-model/C differential 
 RULE = ("histories of 1..40 array operations (add, put_idx, insert_idx, del_idx, get_idx, shrink, sort, bsearch) generated from "
         "one PRNG with a shadow of (length, capacity) used only to aim indices/counts at the boundaries, plus large-array histories "
         "(capacity 300..65537 slots, indices up to 3x the capacity, block appends M<k>), plus sort/search histories (two comparators, "
-        "repeated sorts, mutators through both APIs of one array, in-place value changes V<i>,<v>); two API modes; a case is "
+        "repeated sorts, mutators through both APIs of one array, in-place value changes V<i>,<v>, searches with member-shaped and "
+        "with bare-int keys among int/string/record members, comparator argument roles checked on every call); two API modes; a case is "
         "non-trivial when at least one operation succeeded and the capacity changed or an operation was refused; distinct = "
         "distinct (script) among those")
 TRUSTED = ["Coq 8.16.1 kernel (coqc), no axioms (Print Assumptions: closed under the global context)",
@@ -136,7 +142,10 @@ def gen_sortmix(rng, n):
         def search():
             ks = [x for x in sh if x is not None]
             key = rng.choice(ks) if ks and rng.random() < 0.6 else rng.randint(1, vmax + 2)
-            ops.append("%s%d" % (lc("B" if by == "S" else "C"), key))
+            if rng.random() < 0.6:         # bare-int key against members of any shape: the comparator's argument roles matter
+                ops.append("%s%d" % (lc("K" if by == "S" else "Q"), key))
+            else:
+                ops.append("%s%d" % (lc("B" if by == "S" else "C"), key))
 
         for _ in range(rng.randint(1, 4)):
             mutate()
@@ -430,6 +439,8 @@ def gen_small(rng, n):
                     k = rng.choice(ks) if ks and rng.random() < 0.6 else rng.randint(1, 1100)
                     if mode == "d" and rng.random() < 0.05:
                         ops.append("Bn")
+                    elif rng.random() < 0.5:
+                        ops.append("K%d" % k)
                     else:
                         ops.append("B%d" % k)
             elif r < 0.90 and issorted:
@@ -534,6 +545,11 @@ def oracle(line, meta, impl):
     ops = ops.split(";")
     if "LEAK" in impl:
         return ("leak", "element or allocation leaked: " + impl[-60:])
+    if "ROLE" in impl:
+        nrole = impl.split(" | ").index([x for x in impl.split(" | ") if x.startswith("ROLE")][0]) if any(
+            x.startswith("ROLE") for x in impl.split(" | ")) else -1
+        return ("comparator-roles", "a comparator was called outside its contract (search: first argument the key, second an "
+                "array member; sort: both arguments elements of the array) at op %d (%s)" % (nrole, ops[nrole][:30] if 0 <= nrole < len(ops) else "?"))
     if "BADOP" in impl or "BADLINE" in impl or "BADSET" in impl:
         return ("malformed", "driver rejected the script: " + impl[-60:])
     if impl == "NEWFAIL":
@@ -579,6 +595,19 @@ def oracle(line, meta, impl):
                 want = "f" if key in lst else "nf"
                 if st["ret"] != want:
                     return ("bsearch", "bsearch(%s) = %s but the list model says %s %s" % (estr(key), st["ret"], want, where))
+            continue
+        if k == "K" or k == "Q":
+            # heterogeneous search: the key is a bare int, the members are ints, strings or records
+            key = int(op[1:])
+            if st["data"] != lst or st["rel"]:
+                return ("observer-changed", "a search changed the array %s" % where)
+            if st["ret"] != "nf" and st["ret"] != "f%d" % key:
+                # sorted array or not: whatever is returned must be a member carrying the key's id
+                return ("bsearch-wrong-element", "bsearch for id %d returned %s %s" % (key, st["ret"], where))
+            if lst == sort_model(lst, k == "Q"):
+                want = "f%d" % key if key in lst else "nf"
+                if st["ret"] != want:
+                    return ("bsearch", "bsearch for id %d = %s but the list model says %s %s" % (key, st["ret"], want, where))
             continue
         if k == "S" or k == "R":
             # whatever happened before (earlier sorts by this or the other comparator, elements stored through
@@ -696,8 +725,10 @@ LEVEL_TEXT = ("Machine-checked refinement: for every allocator behaviour, every 
               "the capacity, no size_t wrap or out-of-bounds access is reachable, the released elements are exactly the overwritten/deleted "
               "non-null ones and each element is released exactly once up to destruction; in every reachable state (after any history, "
               "including earlier sorts by either comparator and in-place changes of element values) the model's merge sort yields the unique "
-              "permutation of the current contents ordered by the comparator given, a function of contents and comparator alone, and its binary "
-              "search finds a key iff it is an element (Coq, induction over histories, no axioms).  The model is tied "
+              "permutation of the current contents ordered by the comparator given, a function of contents and comparator alone, and its two-sorted "
+              "binary search (comparator cmp : key -> member -> comparison for an arbitrary key type, compatible with the member order) "
+              "returns only members the comparator calls equal to the key and NULL only when there is none; instantiated for member-shaped "
+              "and for bare-id keys (Coq, induction over histories, no axioms).  The model is tied "
               "to arraylist.c and to the json_object_array_* functions of json_object.c on every run by differential execution of the "
               "extracted model and the ASan/UBSan build on generated histories aimed at the proof's case-split boundaries.")
 LEVEL_NOTE = ("Trusted: Coq kernel; extraction + OCaml glue; harness; libc malloc/realloc/qsort/bsearch (qsort/bsearch are compared through key "
